@@ -14,6 +14,8 @@ Inductive c05_case :=
 (* HTTP/3: one ParseNext call on a reader holding input; the bytes left are compared on success *)
 (* several header blocks through ONE Framer / hpack decoder *)
 | H2MetaSeq (max_list : N) (blocks : list (N * list (N * list hfield))) (obs : list meta_res)
+(* ... with, per block, whether it opens with a dynamic table size update / ends inside a field *)
+| H2MetaSeq2 (max_list : N) (blocks : list (N * (bool * bool) * list (N * list hfield))) (obs : list meta_res)
 (* one connection's header encoder: the peer's limit and, per valid exchange, the field list and
    whether the client refused it *)
 | H2EncSeq (limit : N) (xs : list (list hfield * bool))
@@ -184,6 +186,7 @@ Definition c05_check (c : c05_case) : bool :=
   | H2Write c obs => wres_eqb (run_wcall c) obs
   | H2Meta mx sid frags obs => meta_res_eqb (h2_meta mx sid frags) obs
   | H2MetaSeq mx blocks obs => list_eqb meta_res_eqb (h2_meta_seq true mx blocks) obs
+  | H2MetaSeq2 mx blocks obs => list_eqb meta_res_eqb (h2_meta_seq2 true (true, false) mx blocks) obs
   | H2EncSeq limit xs => forallb (fun x => Bool.eqb (over_limit limit (fst x)) (snd x)) xs
   | H3Next body i obs rest =>
       let '(r, lft) := h3_parse_next_b body i in
